@@ -22,6 +22,7 @@ def dispatch (line : String) : String :=
     | "slot" => slotRun body
     | "shape" => shapeRun body
     | "parse" => parseRun body
+    | "parse2" => parse2Run body
     | "grp" => grpRun body
     | "egs" => egsRun body
     | "egr" => egrRun body
